@@ -273,6 +273,12 @@ pub fn profile(name: &str) -> Option<Profile> {
             p_prompt: 15,
             ..BASE
         },
+        // a history buffer beyond 64 KiB holding lines of about a thousand bytes (see `generate`)
+        "giant" => Profile {
+            name: "giant",
+            units: (10, 20),
+            ..BASE
+        },
         // few, very long sessions: hundreds of submissions, the history wraps many times
         "marathon" => Profile {
             name: "marathon",
@@ -309,7 +315,7 @@ pub fn profile(name: &str) -> Option<Profile> {
 }
 
 pub const PROFILES: &[&str] = &[
-    "mix", "decode", "edit", "term", "hist", "tab", "frame", "flush", "rxfault", "faultrand", "tiny", "marathon", "long",
+    "mix", "decode", "edit", "term", "hist", "tab", "frame", "flush", "rxfault", "faultrand", "tiny", "marathon", "long", "giant",
 ];
 
 const MULTI: &[char] = &['é', 'ж', 'λ', 'ß', '日', '本', '€', '佐', '😀', '𑿁', 'Ю', '字'];
@@ -446,13 +452,24 @@ impl<'a> Gen<'a> {
             let cs: Vec<char> = s.chars().collect();
             let i = self.rng.below(cs.len());
             let mut t: Vec<char> = cs.clone();
-            match self.rng.below(4) {
+            match self.rng.below(6) {
                 0 => {
                     t.remove(i);
                 }
                 1 => t.insert(i, *self.rng.pick(MULTI)),
                 2 => t.insert(i, '"'),
-                _ => t.insert(i, ' '),
+                3 => t.insert(i, ' '),
+                4 => {
+                    // upper-case the first word (names are matched exactly, `HELP` is not `help`)
+                    let end = t.iter().position(|c| *c == ' ').unwrap_or(t.len());
+                    for c in t[..end].iter_mut() {
+                        *c = c.to_ascii_uppercase();
+                    }
+                }
+                _ => {
+                    // flip the case of one letter
+                    t[i] = if t[i].is_ascii_lowercase() { t[i].to_ascii_uppercase() } else { t[i].to_ascii_lowercase() };
+                }
             }
             s = t.into_iter().collect();
         }
@@ -889,7 +906,70 @@ fn swarm(rng: &mut Rng, p: &mut Profile) {
     }
 }
 
+/// History offsets beyond 16 bits: one line of about a thousand bytes is typed once; every
+/// further entry costs three keys (recall, one more character, Enter). Then navigation,
+/// re-submission of old entries and eviction at that scale.
+fn generate_giant(seed: u64) -> Trace {
+    let mut rng = Rng::new(seed);
+    let line_len = rng.range(900, 1100);
+    let cfg = Cfg {
+        cmd_cap: 1200,
+        hist_cap: *rng.pick(&[66_000usize, 70_000, 100_000, 131_072]),
+        prompt: 0,
+        set: 0,
+        buffered: rng.chance(1, 3),
+        short: 0,
+        salt: rng.next_u64() >> 16,
+        family: "giant".into(),
+        use_new: false,
+        derived: false,
+        build_fault: None,
+        builder_order: rng.below(4),
+    };
+    let mut ev: Vec<Event> = Vec::new();
+    fn keys(ev: &mut Vec<Event>, s: &[u8]) {
+        for b in s {
+            ev.push(Event::rx(*b));
+        }
+    }
+    for i in 0..line_len {
+        ev.push(Event::rx(b'a' + (i % 23) as u8));
+    }
+    keys(&mut ev, b"\r");
+    let entries = rng.range(60, 140);
+    for i in 0..entries {
+        keys(&mut ev, b"\x1b[A");
+        if i % 9 == 8 {
+            keys(&mut ev, b"\x08\x08"); // shorter variants too
+        }
+        ev.push(Event::rx(b'a' + rng.below(26) as u8));
+        keys(&mut ev, b"\n");
+    }
+    // walk around in it, re-submit old entries (duplicates far back), walk again
+    for _ in 0..rng.range(3, 8) {
+        for _ in 0..rng.range(1, 90) {
+            keys(&mut ev, b"\x1b[A");
+        }
+        for _ in 0..rng.below(20) {
+            keys(&mut ev, b"\x1b[B");
+        }
+        match rng.below(3) {
+            0 => keys(&mut ev, b"\r"),
+            1 => {
+                keys(&mut ev, b"\x1b[D");
+                ev.push(Event::rx(b'Z'));
+                keys(&mut ev, b"\r");
+            }
+            _ => {}
+        }
+    }
+    Trace { cfg, events: ev }
+}
+
 pub fn generate(profile: &Profile, seed: u64) -> Trace {
+    if profile.name == "giant" {
+        return generate_giant(seed);
+    }
     let mut rng = Rng::new(seed);
     let mut p = profile.clone();
     swarm(&mut rng, &mut p);
